@@ -151,6 +151,30 @@ static void payload_items(char downenc)
 		if (w > 0) add_item(out, w, 0, "genuine answer carrying a %d-byte %s", n, kind ? "data fragment of junk" : "probe body");
 		if (kind == 0 && n > 40) { pl[n / 2] ^= 0x55; w = server_written(out, pl, n, downenc); if (w > 0) add_item(out, w, 0, "genuine answer carrying a %d-byte probe body with one corrupted byte", n); }
 	}
+	/* answers that fill the client's buffers with non-zero bytes and whose record (or question) claims another type: what one
+	 * branch of the decoder copied as raw bytes is then handled as text by the branch for the claimed type */
+	{
+		static const int BL[] = { 300, 4094, 4096, 4100, 8000 };
+		static const int TY[] = { 15, 33, 16, 5, 1, 10, 65399 };
+		static rd_msg bm; char err[128];
+		for (unsigned i = 0; i < sizeof BL / sizeof BL[0]; i++) {
+			int n = BL[i];
+			pl[0] = 0x80; pl[1] = (3 << 5) | 1; for (int k = 2; k < n; k++) pl[k] = (k % 255) + 1;
+			int w = server_written(out, pl, n, downenc);
+			if (w <= 0 || rd_parse(out, w, &bm, err) || bm.nrr < 1) continue;
+			int tpos = bm.rr[0].rdoff - 10, qpos = 12 + bm.qnamelen;
+			for (unsigned t = 0; t < sizeof TY / sizeof TY[0]; t++) {
+				if (TY[t] == bm.rr[0].type) continue;
+				unsigned char sv0 = out[tpos], sv1 = out[tpos + 1];
+				out[tpos] = TY[t] >> 8; out[tpos + 1] = TY[t];
+				add_item(out, w, 0, "genuine answer carrying %d non-zero bytes whose record claims type %d", n, TY[t]);
+				unsigned char q0 = out[qpos], q1 = out[qpos + 1];
+				out[qpos] = TY[t] >> 8; out[qpos + 1] = TY[t];
+				add_item(out, w, 0, "genuine answer carrying %d non-zero bytes whose record and question claim type %d", n, TY[t]);
+				out[tpos] = sv0; out[tpos + 1] = sv1; out[qpos] = q0; out[qpos + 1] = q1;
+			}
+		}
+	}
 	/* data headers: every downstream seq / a few fragment numbers / last flag, bodies: valid packet, invalid zlib, inflating beyond 64 KB */
 	unsigned char ip[100], z[200]; int l = tm_ippkt(ip, 40, 0xC0A80101u, 0x0A000002, 4242), zl = tm_compress(ip, l, z, sizeof z);
 	static unsigned char big[66000]; unsigned char zbig[1000]; memset(big, 0, sizeof big); big[2] = 8; int zbl = tm_compress(big, 66000, zbig, sizeof zbig);
